@@ -1,6 +1,7 @@
 package main
 
 import (
+	"os"
 	"go/token"
 	"go/types"
 	"sort"
@@ -492,6 +493,10 @@ func c17r1(c *Ctx) {
 	reach := p.CG().Reach(entries, nil)
 	c.Stat("generation_reachable_functions", len(reach))
 	armed := map[string]bool{istioMod + "/" + pkgEndpoints: true, istioMod + "/" + pkgRoute: true, istioMod + "/" + pkgXds: true}
+	if os.Getenv("VERIF_C17_ARM_CORE") != "" {
+		armed[istioMod+"/"+pkgCore] = true
+		armed[istioMod+"/pilot/pkg/networking/grpcgen"] = true
+	}
 	// frozen exceptions: function + ranged expression -> reason the order does not reach generated bytes
 	except := map[string]string{
 		"(*pilot/pkg/xds.DiscoveryServer).Clients|field adsClients": "list of connections for the push fan-out and debug pages; not part of any generated resource",
